@@ -604,7 +604,7 @@ def run(ctx, repo):
 
     # ---- R6 the formulas of the scoring ports are the same piecewise polynomials (sa/symx.py): returns and conditional effects
     from .. import symx
-    FORMULA_PAIRS = [('tyrving', 'TyrvingCalculator.race_points', 'racePoints'), ('tyrving', 'TyrvingCalculator.jump_points', 'jumpPoints'),
+    FORMULA_PAIRS = [('tyrving', 'tyrving_score', 'tyrvingScore'), ('tyrving', 'TyrvingCalculator.race_points', 'racePoints'), ('tyrving', 'TyrvingCalculator.jump_points', 'jumpPoints'),
                      ('tyrving', 'TyrvingCalculator.stav_points', 'stavPoints'), ('qkids', 'qkids_score', 'qkidsScore')]
     n_forms = 0
     for modk, pq, jq in FORMULA_PAIRS:
@@ -631,5 +631,5 @@ def run(ctx, repo):
                         % (pq, jq, [e_ for e_ in pe if e_ not in je], [e_ for e_ in je if e_ not in pe]))
         else:
             ctx.ok('R6', '%s <-> %s: %d return form(s) and %d conditional effect(s) identical' % (pq, jq, len(pt), len(pe)))
-    ctx.floor('formula normal forms compared', n_forms, 4)
+    ctx.floor('formula normal forms compared', n_forms, 5)
 
